@@ -5,6 +5,29 @@
 From Coq Require Import Permutation.
 From TL Require Import Lib.Base Lib.GenTypes Gen.OrchHistGen Model.OrchHist Proofs.OrchHistBase Proofs.OrchHistMain.
 
+(* ---------- every command's rule filter selects exactly the rule ids of its own linter package ---------- *)
+(* CLI filter function -> package of src/linters it is the front end of (the specification side of the table) *)
+Definition cmd_pkg : list (string * list string) :=
+  [("_run_dry_lint", ["dry"]); ("_run_stringly_typed_lint", ["stringly_typed"]); ("_run_nesting_lint", ["nesting"]);
+   ("_run_magic_numbers_lint", ["magic_numbers"]); ("_run_improper_logging_lint", ["print_statements"]);
+   ("_run_file_header_lint", ["file_header"]); ("_run_lbyl_lint", ["lbyl"]); ("_run_srp_lint", ["srp"]);
+   ("_run_method_property_lint", ["method_property"]); ("_run_stateless_class_lint", ["stateless_class"]);
+   ("_run_pipeline_lint", ["collection_pipeline"]); ("_execute_file_placement_lint", ["file_placement"]);
+   ("_run_lazy_ignores_lint", ["lazy_ignores"]); ("_run_unwrap_abuse_lint", ["unwrap_abuse"]);
+   ("_run_clone_abuse_lint", ["clone_abuse"]); ("_run_blocking_async_lint", ["blocking_async"]);
+   ("_run_all_perf_lint", ["performance"])].
+
+Definition filter_exact (fn : string) (pkgs : list string) : bool :=
+  match cli_filter_of fn cli_filters with
+  | Some (k, n) =>
+      forallb (fun e : string * list string =>
+                 forallb (fun id => Bool.eqb (fmatch k n id) (smem (fst e) pkgs)) (snd e)) package_rule_ids
+  | None => false
+  end.
+
+Theorem cli_filters_select_own_package : forallb (fun e => filter_exact (fst e) (snd e)) cmd_pkg = true.
+Proof. vm_compute. reflexivity. Qed.
+
 Section Filters.
   Variable V : Type.
   Variable rule_of : V -> string.
